@@ -334,6 +334,46 @@ def main():
             if got != want:
                 rec["got"], rec["want"] = got, want
             res["cases"].append(rec)
+    # short-lived callables through ONE long-lived worker connection: each is created, submitted, awaited and dropped before the
+    # next exists, so object addresses repeat (closures, bound methods, functools.partial objects)
+    import functools
+    import gc
+
+    class _Acc:
+        def __init__(self, k):
+            self.k = k
+
+        def add(self, x):
+            return ("method", self.k, self.k + x)
+
+    def _mk_closure(k):
+        def scaled(x):
+            return ("closure", k, k * x)
+
+        return scaled
+
+    def _pw(a, b):
+        return ("partial", a, a - b)
+
+    for mname, kw in (("block1_sweep", dict(backend="local", block_allocation=True, max_workers=1)),
+                      ("block1_sweep_nodeps", dict(backend="local", block_allocation=True, max_workers=1, disable_dependencies=True))):
+        with executorlib.Executor(**kw) as exe:
+            for k in range(18):
+                kind = ("closure", "method", "partial")[k % 3]
+                fn = _mk_closure(k) if kind == "closure" else (_Acc(k).add if kind == "method" else functools.partial(_pw, k))
+                x = rng.randrange(1, 50)
+                want = canon(fn(x))
+                try:
+                    got = canon(exe.submit(fn, x).result(timeout=60))
+                except Exception as e:  # noqa
+                    got = ("EXC", type(e).__name__, repr(e)[:200])
+                del fn
+                gc.collect()
+                ok = json.dumps(got, sort_keys=True, default=str) == json.dumps(want, sort_keys=True, default=str)
+                rec = {"mode": mname, "kind": "sweep." + kind, "tag": "sweep-%s-%d" % (mname, k), "ok": ok, "shape": ["int"]}
+                if not ok:
+                    rec["got"], rec["want"] = got, want
+                res["cases"].append(rec)
     # presets of an init_function: the caller's own value always wins (explicit > preset > default)
     for mname, kw in (("block1_init", dict(backend="local", block_allocation=True, max_workers=1, init_function=_presets)),
                       ("block2_init_nodeps", dict(backend="local", block_allocation=True, max_workers=2, disable_dependencies=True,
